@@ -53,10 +53,17 @@ func (f *Ash) Call(s *slip.Scope, args slip.List, depth int) (result slip.Object
 	sh := int(shift)
 	switch ti := args[0].(type) {
 	case slip.Fixnum:
-		if sh < 0 {
-			result = slip.Fixnum(uint64(ti) >> -sh)
-		} else {
-			result = slip.Fixnum(uint64(ti) << sh)
+		switch {
+		case sh < 0:
+			if sh < -63 {
+				sh = -63 // only the sign is left
+			}
+			result = ti >> uint(-sh)
+		case sh < 64 && (ti<<uint(sh))>>uint(sh) == ti:
+			result = ti << uint(sh)
+		default:
+			var bi big.Int
+			result = canonicalInteger(bi.Lsh(big.NewInt(int64(ti)), uint(sh)))
 		}
 	case slip.Octet:
 		if sh < 0 {
@@ -65,38 +72,15 @@ func (f *Ash) Call(s *slip.Scope, args slip.List, depth int) (result slip.Object
 			result = slip.Octet(uint64(ti) << sh)
 		}
 	case *slip.Bignum:
-		ba := (*big.Int)(ti).Bytes()
-		if sh < 0 {
-			sh = -sh
-			bs := sh / 8
-			sh %= 8
-			mask := byte(^(0xff << sh))
-			var rem byte
-			for i, b := range ba {
-				ba[i] = (b >> sh) | rem
-				rem = (mask & b) << (8 - sh)
-			}
-			ba = ba[:len(ba)-bs]
-		} else {
-			bs := sh / 8
-			bn := make([]byte, len(ba)+bs+1)
-			copy(bn[1:], ba)
-			sh %= 8
-			mask := byte(^(0xff >> sh))
-			for i, b := range bn {
-				if 0 < i {
-					bn[i-1] |= (mask & b) >> (8 - sh)
-				}
-				bn[i] = b << sh
-			}
-			ba = bn
-		}
+		// Lsh and Rsh work on the two's complement form so a right shift
+		// rounds toward negative infinity as ash is expected to.
 		var bi big.Int
-		bi.SetBytes(ba)
-		if (*big.Int)(ti).Sign() < 0 {
-			bi.Neg(&bi)
+		if sh < 0 {
+			_ = bi.Rsh((*big.Int)(ti), uint(-sh))
+		} else {
+			_ = bi.Lsh((*big.Int)(ti), uint(sh))
 		}
-		result = (*slip.Bignum)(&bi)
+		result = canonicalInteger(&bi)
 	default:
 		slip.TypePanic(s, depth, "integer", ti, "integer")
 	}
